@@ -198,7 +198,7 @@ pub fn setup(scn: &Scn) -> Result<Setup, String> {
         let ref_powers = dec.verif_cache_snapshot().ok_or("no snapshot")?;
         let tool_ctx = world.ctx.key_context_data().unwrap();
         let tool = tool_ctx.verif_galois_tool();
-        let ref_tables = (0..scn.spec.n).map(|i| tool.generate_table_ntt(2 * i + 1)).collect();
+        let ref_tables = if scn.spec.n <= 256 { (0..scn.spec.n).map(|i| tool.generate_table_ntt(2 * i + 1)).collect() } else { Vec::new() };
         Ok(Setup { world, galois, ref_powers, ref_tables, key_poly })
     })
 }
@@ -404,6 +404,9 @@ fn make_probe(sh: Arc<SharedObjs>, su: &Setup) -> Box<dyn FnMut(&[TraceEv]) -> R
         check("decryptor", sh.dec.verif_cache_snapshot(), &mut last_dec)?;
         check("key-generator", sh.keygen.verif_cache_snapshot(), &mut last_kg)?;
         let kcd = sh.ctx.key_context_data().unwrap();
+        if ref_tables.is_empty() {
+            return Ok(()); // large ring: copying hundreds of tables after every step is not affordable
+        }
         if let Some(tables) = kcd.verif_galois_tool().verif_tables_snapshot() {
             for (i, t) in tables.iter().enumerate() {
                 if !t.is_empty() && i < ref_tables.len() && *t != ref_tables[i] {
@@ -512,6 +515,26 @@ pub fn execute(scn: &Scn, su: &Arc<Setup>, rf: &Reference, strategy: Strategy, s
 
 // ---------------------------------------------------------------------------------------
 // Scenario generation
+
+/// A realistic ring size with hundreds of different Galois elements: the only way to reach code
+/// whose behaviour depends on a size budget (a cache that evicts, a table that spills).
+fn gen_large_scenario(rng: &mut Prng, run_seed: u64) -> Option<Scn> {
+    let n = *rng.pick(&[2048usize, 4096]);
+    let factor = 2 * n as u64;
+    let scheme = *rng.pick(&[CKKS, BGV, BFV]);
+    let mut q = Vec::new();
+    for bits in [36usize, 50] {
+        q.push(gen::find_prime(rng, factor, bits, &q)?);
+    }
+    let t = if scheme == CKKS { 0 } else { gen::find_prime(rng, factor, 17, &q)? };
+    let spec = ParamSpec { scheme, n, q, t, expand_chain: true, special_enc: false };
+    let nthreads = rng.range(3, 4);
+    let per_thread = 2 * (1usize << 20) / n / nthreads + 40; // together: about twice as many elements as 2^20/N
+    let threads = (0..nthreads)
+        .map(|_| (0..per_thread).map(|_| Op::ApplyGaloisPlain { elt: 2 * rng.usize_below(n) + 1, level: 0, seed: rng.next_u64() >> 1 }).collect())
+        .collect();
+    Some(Scn { spec, ent: prng::mix(run_seed, 0xC17, 1), threads, policy: if rng.coin() { Policy::WriterPref } else { Policy::ReaderPref } })
+}
 
 fn gen_scenario(rng: &mut Prng, run_seed: u64) -> Option<Scn> {
     let opts = SpecOpts {
@@ -676,8 +699,9 @@ fn one_run(i: usize, run_seed: u64, b: &Budget) -> RunOut {
     let root = Prng::new(run_seed);
     let mut srng = root.fork("scenario");
     let mut built = None;
+    let large = i % 64 == 33;
     for _ in 0..10 {
-        let Some(scn) = gen_scenario(&mut srng, run_seed) else { continue };
+        let Some(scn) = (if large { gen_large_scenario(&mut srng, run_seed) } else { gen_scenario(&mut srng, run_seed) }) else { continue };
         let su = match setup(&scn) {
             Ok(su) => Arc::new(su),
             Err(e) => {
@@ -721,7 +745,11 @@ fn one_run(i: usize, run_seed: u64, b: &Budget) -> RunOut {
     let mut schedrng = root.fork("sched");
     let mut evals = 0u64;
     let mut first_trace = None;
-    for k in 0..b.schedules {
+    let nsched = if large { 3 } else { b.schedules };
+    if large {
+        out.count("probe.large_ring_many_elements_scenario", 1);
+    }
+    for k in 0..nsched {
         let (strategy, sname) = draw_strategy(&mut schedrng, scn.threads.len(), rf.points as usize);
         let sseed = schedrng.next_u64();
         let ex = match execute(&scn, &su, &rf, strategy.clone(), sseed) {
@@ -764,7 +792,7 @@ fn one_run(i: usize, run_seed: u64, b: &Budget) -> RunOut {
     }
     // supplementary net: a burst of truly parallel executions of the same scenario (no baton), for
     // races inside synchronisation the lock wrapper cannot see; judged by the same oracle
-    for _ in 0..b.free_runs {
+    for _ in 0..(if large { 1 } else { b.free_runs }) {
         let Ok(ex) = execute(&scn, &su, &rf, Strategy::FreeRun, 0) else { continue };
         evals += 1;
         out.count("strategy.free-run", 1);
@@ -876,8 +904,12 @@ fn minimise(v: &Violation) -> Violation {
     }
     let Some((mut scn, mut choices)) = parse_replay(&v.replay) else { return v.clone() };
     let same_class = |ex: &Exec| ex.bad.as_ref().map(|(c, _, _)| *c == v.class).unwrap_or(false);
+    // minimisation is bounded in wall-clock time: a large scenario costs a second per execution
+    let deadline = std::time::Instant::now() + std::time::Duration::from_secs(90);
+    let total_ops: usize = scn.threads.iter().map(|t| t.len()).sum();
+    let retries = if total_ops > 40 { 12 } else { 300 };
     let find = |scn: &Scn, hint: &[u8]| -> Option<Exec> {
-        if scn.threads.len() < 2 {
+        if scn.threads.len() < 2 || std::time::Instant::now() > deadline {
             return None;
         }
         let su = Arc::new(setup(scn).ok()?);
@@ -888,7 +920,10 @@ fn minimise(v: &Violation) -> Violation {
             }
         }
         let mut r = Prng::new(0xD1CE);
-        for _ in 0..300 {
+        for _ in 0..retries {
+            if std::time::Instant::now() > deadline {
+                return None;
+            }
             let (s, _) = draw_strategy(&mut r, scn.threads.len(), rf.points as usize);
             if let Ok(ex) = execute(scn, &su, &rf, s, r.next_u64()) {
                 if same_class(&ex) {
@@ -921,7 +956,30 @@ fn minimise(v: &Violation) -> Violation {
         if progress {
             continue;
         }
+        // halve long call lists before trying single calls
+        for t in 0..scn.threads.len() {
+            if scn.threads[t].len() >= 8 && std::time::Instant::now() < deadline {
+                let half = scn.threads[t].len() / 2;
+                for keep_front in [true, false] {
+                    let mut c = scn.clone();
+                    if keep_front { c.threads[t].truncate(half) } else { c.threads[t].drain(..half); }
+                    if let Some(ex) = find(&c, &[]) {
+                        scn = c;
+                        choices = ex.choices.clone();
+                        best = ex;
+                        progress = true;
+                        break;
+                    }
+                }
+            }
+        }
+        if progress {
+            continue;
+        }
         'ops: for t in 0..scn.threads.len() {
+            if std::time::Instant::now() > deadline {
+                break;
+            }
             for o in 0..scn.threads[t].len() {
                 if scn.threads[t].len() <= 1 {
                     continue;
@@ -941,7 +999,7 @@ fn minimise(v: &Violation) -> Violation {
     // 2. remove pre-emptions one at a time
     let mut i = 1;
     let mut guard = 0;
-    while i < choices.len() && guard < 400 {
+    while i < choices.len() && guard < 400 && std::time::Instant::now() < deadline {
         guard += 1;
         if choices[i] != choices[i - 1] {
             let mut c = choices.clone();
